@@ -40,7 +40,7 @@ func runC08(tier, replay string) {
 	r.Assume("part/registry state is read from pithos' SQLite tables through a read-only connection at quiescent points")
 	ctx := context.Background()
 	stacks := []string{"fs", "sql", "named", "outbox>fs"}
-	rounds := r.N(6, 150)
+	rounds := r.N(18, 200)
 	if r.Thorough() {
 		stacks = append(stacks, "zstd>fs", "ec21", "cache>fs")
 	}
@@ -161,6 +161,7 @@ func runC08(tier, replay string) {
 			// GC hammer
 			bg.Add(1)
 			var gcPasses atomic.Int64
+			gcPause := rng.Fork("gc-pause")
 			go func() {
 				defer bg.Done()
 				for {
@@ -173,7 +174,9 @@ func runC08(tier, replay string) {
 					_ = metadatapart.RunGCOnce(ctx, s)
 					gcActive.Store(false)
 					gcPasses.Add(1)
-					time.Sleep(500 * time.Microsecond)
+					// irregular pauses: a wrong reconciliation must sometimes survive long
+					// enough for a writer to act on it before the next pass repairs it
+					time.Sleep(time.Duration(200+gcPause.Intn(12000)) * time.Microsecond)
 				}
 			}()
 			// readers of live versions
